@@ -878,6 +878,7 @@ var modelPrefixes = []string{
 	hertz + "pkg/common/hlog.",
 	"(*" + hertz + "pkg/common/hlog.defaultLogger).",
 	"(*" + hertz + "pkg/common/hlog.systemLogger).",
+	hertz + "cmd/hz/util/logs.", // the hz tool's logger
 }
 
 func hlogFatal(e *Engine, st *State, c *callCtx) {
